@@ -29,7 +29,8 @@ type vNode struct {
 	commits []*vCommit
 	rounds  []*vRound
 	// commit callback behaviour
-	commitErr bool
+	commitErr    bool
+	onCommitHook func(ctx context.Context) // runs inside the commit callback (the worker is blocked in the SPI call)
 }
 
 type vCommit struct {
@@ -54,6 +55,8 @@ func newVNode(reg *stub.Registry, committee []interfaces.CommitteeMember, idx in
 	n.comm = &stub.Comm{}
 	n.mem = &stub.Membership{Me: n.me, Committee: committee}
 	n.bu = &stub.BlockUtils{}
+	// every fresh proposal is a different block: odd (acceptable) tags, unique per node and request
+	n.bu.NextTag = func() byte { return byte(0x41 + 32*idx + 2*len(n.bu.Requests)) }
 	n.el = stub.NewElection()
 	n.st = stub.NewStorage()
 	n.cfg = &interfaces.Config{
@@ -75,6 +78,9 @@ func newVNode(reg *stub.Registry, committee []interfaces.CommitteeMember, idx in
 func (n *vNode) onCommit(ctx context.Context, block interfaces.Block, blockProof []byte) error {
 	b, _ := block.(*stub.Block)
 	n.commits = append(n.commits, &vCommit{seq: len(n.rounds), block: b, raw: block, proof: blockProof, ctx: ctx})
+	if n.onCommitHook != nil {
+		n.onCommitHook(ctx)
+	}
 	if n.commitErr {
 		return stub.ErrStub
 	}
